@@ -39,6 +39,11 @@ inductive Prog where
   | hang                                            -- blocks in a transport read forever (silent device)
   | work (d : Nat) (k : Prog)                       -- a transport read that returns after d ticks, then k
   | call (t : Nat) (name : String) (body k : Prog)  -- calls a @timeout_wrapper function, then k
+  | spawn (body k : Prog)                           -- asyncio only: `task = ensure_future(body)`, then waits for it with
+                                                    -- `asyncio.wait({task})` (which does NOT cancel it when cancelled
+                                                    -- itself), takes `task.result()`, then k.  Under the sync mechanisms
+                                                    -- it is an ordinary inline call.  No such site exists in the tree
+                                                    -- (generated `asyncSpawnSites`); it is here to state what would break.
 deriving Repr, DecidableEq
 
 inductive Out where
@@ -147,6 +152,7 @@ def runS (cfg : Cfg) : Prog → Proc → Option (Proc × Out)
         | (p', none) => runS cfg k { p' with now := p.now + d }
       else runS cfg k { p with now := p.now + d }
   | .call t name body k, p => seqS (wrapS t name (runS cfg body) p) (runS cfg k)
+  | .spawn body k, p => seqS (runS cfg body p) (runS cfg k)
 
 /-- the decorated call on its own -/
 def wrapSignal (cfg : Cfg) (t : Nat) (name : String) (body : Prog) (p : Proc) : Option (Proc × Out) :=
@@ -223,6 +229,7 @@ def runT (cfg : Cfg) : Prog → Nat → Option Nat → TRes
     | some (.inr e) => runT cfg k e ext
     | none => { fin := none, out := .error }
   | .call t name body k, s, ext => seqT (poolT cfg t name (runT cfg body) s ext) (runT cfg k) ext
+  | .spawn body k, s, ext => seqT (runT cfg body s ext) (runT cfg k) ext
 
 /-- is some worker thread of this call tree still running at time `τ` -/
 def TRes.busyAt (r : TRes) (τ : Nat) : Bool := r.acts.any fun a => a.start ≤ τ && !ole a.stop τ
@@ -241,6 +248,7 @@ structure ARes where
   fin : Option Nat
   out : Out
   closed : Bool := false
+  tasks : List Act := []     -- every asyncio Task created in this call tree (wait_for wraps its coroutine in one)
 deriving Repr, DecidableEq
 
 /-- does our own deadline `D` come before the enclosing cancellation -/
@@ -260,13 +268,27 @@ def waitForA (cfg : Cfg) (t : Nat) (name : String) (f : Nat → Option Nat → B
     let r := f s (omin cancelAt (some (s + t))) c
     if r.out == .cancelled && ownFirst cancelAt (s + t) then
       let (c', o) := handleTimeout cfg r.closed (message name)
-      { fin := r.fin, out := o, closed := c' }
-    else r
+      { fin := r.fin, out := o, closed := c', tasks := ⟨s, r.fin, name⟩ :: r.tasks }
+    else { r with tasks := ⟨s, r.fin, name⟩ :: r.tasks }
+
+/-- `task = asyncio.ensure_future(f()); done, _ = await asyncio.wait({task}); task.result()`: the task does
+    not see the enclosing cancellation; if the waiter is cancelled first (ties: the deadline was set
+    first) the task simply stays behind -/
+def spawnA (f : Nat → Option Nat → Bool → ARes) (s : Nat) (cancelAt : Option Nat) (c : Bool) : ARes :=
+  let r := f s none c
+  match cancelAt with
+  | some C =>
+    if olt r.fin C then { r with tasks := ⟨s, r.fin, "task"⟩ :: r.tasks }
+    else { fin := some (max C s), out := .cancelled, closed := c, tasks := ⟨s, r.fin, "task"⟩ :: r.tasks }
+  | none => { r with tasks := ⟨s, r.fin, "task"⟩ :: r.tasks }
 
 def seqA (a : ARes) (k : Nat → Bool → ARes) : ARes :=
   match a.fin, a.out with
-  | some e, .ret => k e a.closed
+  | some e, .ret => let r := k e a.closed; { r with tasks := a.tasks ++ r.tasks }
   | _, _ => a
+
+/-- is some task of this call tree still pending at time `τ` -/
+def ARes.pendingAt (r : ARes) (τ : Nat) : Bool := r.tasks.any fun a => a.start ≤ τ && !ole a.stop τ
 
 /-- Run a coroutine; `cancelAt` = when an enclosing `wait_for` cancels it; `c` = transport closed. -/
 def runA (cfg : Cfg) : Prog → Nat → Option Nat → Bool → ARes
@@ -282,6 +304,8 @@ def runA (cfg : Cfg) : Prog → Nat → Option Nat → Bool → ARes
     | none => runA cfg k (s + d) cancelAt c
   | .call t name body k, s, cancelAt, c =>
     seqA (waitForA cfg t name (runA cfg body) s cancelAt c) (fun e c' => runA cfg k e cancelAt c')
+  | .spawn body k, s, cancelAt, c =>
+    seqA (spawnA (runA cfg body) s cancelAt c) (fun e c' => runA cfg k e cancelAt c')
 
 /-! ## one entry point -/
 
@@ -304,7 +328,7 @@ def run (cfg : Cfg) (m : Mech) (prog : Prog) (p : Proc) : Res :=
     { fin := r.fin, out := r.out, closed := p.closed || r.closeAt.isSome, handler := p.handler, timer := p.timer, acts := r.acts }
   | .asyncio =>
     let r := runA cfg prog p.now none p.closed
-    { fin := r.fin, out := r.out, closed := r.closed, handler := p.handler, timer := p.timer }
+    { fin := r.fin, out := r.out, closed := r.closed, handler := p.handler, timer := p.timer, acts := r.tasks }
   | _ =>
     match runS cfg prog p with
     | some (q, o) => { fin := some q.now, out := o, closed := q.closed, handler := q.handler, timer := q.timer }
